@@ -33,6 +33,18 @@ func derivesFromOptionsField(v ssa.Value, field string) bool {
 // truncCallWithLimit: v derives from stringsx.Truncate / TruncateEllipsis whose limit argument is EngineOptions.<field>
 // (or the package constant named constName when field == "").
 func truncCallWithLimit(v ssa.Value, fn string, field string, constVal int64) *ssa.Call {
+	return truncCallWith(v, fn, func(lim ssa.Value) bool {
+		if field != "" {
+			return derivesFromOptionsField(lim, field)
+		}
+		k, isC := core.ConstInt(lim)
+		return isC && k == constVal
+	}, 0)
+}
+
+// truncCallWith: v derives from stringsx.<fn>(_, lim) with limOK(lim); the call is also found inside a helper of the
+// same package whose result flows into v (a truncation a refactoring moved into a function of its own).
+func truncCallWith(v ssa.Value, fn string, limOK func(lim ssa.Value) bool, depth int) *ssa.Call {
 	for x := range core.BackSlice(v, func(c *ssa.Call) bool {
 		o := core.CalleeObj(&c.Call)
 		return o != nil && (strings.HasPrefix(core.ObjName(o), "strings.") || strings.HasPrefix(core.ObjName(o), "github.com/nyaruka/gocommon/stringsx.") || core.ObjName(o) == "excellent/types.NewXText")
@@ -41,20 +53,116 @@ func truncCallWithLimit(v ssa.Value, fn string, field string, constVal int64) *s
 		if !ok {
 			continue
 		}
+		if g := c.Call.StaticCallee(); g != nil && len(g.Blocks) > 0 && depth < 2 && c.Parent() != nil && g != c.Parent() && core.FuncPkgPath(g) == core.FuncPkgPath(c.Parent()) && len(g.Params) == len(c.Call.Args) {
+			// every value the helper returns must be truncated; a limit it receives as a parameter is judged at the call
+			inner := func(lim ssa.Value) bool {
+				if limOK(lim) {
+					return true
+				}
+				if i := paramPos(g, lim); i >= 0 {
+					return limOK(c.Call.Args[i])
+				}
+				return false
+			}
+			rets := core.Returns(g)
+			all := len(rets) > 0 && g.Signature.Results().Len() == 1
+			var found *ssa.Call
+			for _, ret := range rets {
+				if !all {
+					break
+				}
+				if found = truncCallWith(ret.Results[0], fn, inner, depth+1); found == nil {
+					all = false
+				}
+			}
+			if all {
+				return found
+			}
+			continue
+		}
 		o := core.CalleeObj(&c.Call)
 		if o == nil || core.ObjName(o) != "github.com/nyaruka/gocommon/stringsx."+fn {
 			continue
 		}
-		lim := c.Call.Args[1]
-		if field != "" {
-			if derivesFromOptionsField(lim, field) {
-				return c
-			}
-		} else if k, isC := core.ConstInt(lim); isC && k == constVal {
+		if limOK(c.Call.Args[1]) {
 			return c
 		}
 	}
 	return nil
+}
+
+// paramPos: the position of v among fn's parameters (-1 if it is not one).
+func paramPos(fn *ssa.Function, v ssa.Value) int {
+	for i, q := range fn.Params {
+		if ssa.Value(q) == core.StripConv(v) {
+			return i
+		}
+	}
+	return -1
+}
+
+// truncStore is an assignment `base.<field> = Truncate(_, Options().<limit>)` made by a function or, on its behalf, by
+// a helper of the same package that it hands base to.
+type truncStore struct {
+	Outer ssa.Instruction // the store, or the call (in the function asked about) of the helper that performs it
+	Base  ssa.Value       // the struct stored into, as a value of the function asked about
+	// Inner: what decides inside the helpers whether the store runs, other than base being there (nil tests of base)
+	Inner []core.CondEdge
+}
+
+func truncStores(fn *ssa.Function, field string, limOK func(lim ssa.Value) bool, depth int) []truncStore {
+	var out []truncStore
+	core.EachInstr(fn, false, func(_ *ssa.Function, in ssa.Instruction) {
+		switch x := in.(type) {
+		case *ssa.Store:
+			fa, ok := x.Addr.(*ssa.FieldAddr)
+			if ok && core.FieldAddrVar(fa).Name() == field && truncCallWith(x.Val, "Truncate", limOK, 0) != nil {
+				out = append(out, truncStore{Outer: x, Base: fa.X})
+			}
+		case *ssa.Call:
+			g := x.Call.StaticCallee()
+			if depth <= 0 || g == nil || g == fn || len(g.Blocks) == 0 || core.FuncPkgPath(g) != core.FuncPkgPath(fn) || len(g.Params) != len(x.Call.Args) {
+				return
+			}
+			inner := func(lim ssa.Value) bool {
+				if limOK(lim) {
+					return true
+				}
+				if i := paramPos(g, lim); i >= 0 {
+					return limOK(x.Call.Args[i])
+				}
+				return false
+			}
+			for _, ts := range truncStores(g, field, inner, depth-1) {
+				// the helper stores into what it was handed
+				i := paramPos(g, ts.Base)
+				if i < 0 {
+					continue
+				}
+				conds := append([]core.CondEdge{}, ts.Inner...)
+				for _, ce := range core.MayConds(ts.Outer.Block()) {
+					if !isNilTestOf(ce.Cond, ts.Base) {
+						conds = append(conds, ce)
+					}
+				}
+				out = append(out, truncStore{Outer: x, Base: x.Call.Args[i], Inner: conds})
+			}
+		}
+	})
+	return out
+}
+
+// isNilTestOf: cond is `v == nil` / `v != nil`.
+func isNilTestOf(cond ssa.Value, v ssa.Value) bool {
+	bo, ok := cond.(*ssa.BinOp)
+	if !ok || (bo.Op != token.NEQ && bo.Op != token.EQL) || !(core.IsNilConst(bo.X) || core.IsNilConst(bo.Y)) {
+		return false
+	}
+	other := bo.X
+	if core.IsNilConst(bo.X) {
+		other = bo.Y
+	}
+	return canon(other) == canon(v)
 }
 
 // packageIntConst reads an untyped/typed integer constant of a module package.
@@ -436,7 +544,38 @@ func c05R3(p *core.Program, r *core.Report, e *engineFns) {
 	// predicate in countWaits: the condition controlling the counter increment
 	var pred func(string) (bool, bool)
 	desc := ""
-	core.EachInstr(countWaits, false, func(_ *ssa.Function, in ssa.Instruction) {
+	// the counting may be split over helpers of the same package whose result flows into the count (a per-run counter
+	// summed by countWaits): the predicate is looked for in all of them
+	counters := []*ssa.Function{countWaits}
+	for i := 0; i < len(counters) && i < 8; i++ {
+		for _, ret := range core.Returns(counters[i]) {
+			for _, rv := range ret.Results {
+				for v := range core.BackSlice(rv, nil) {
+					c, ok := v.(*ssa.Call)
+					if !ok {
+						continue
+					}
+					f := c.Call.StaticCallee()
+					if f == nil || len(f.Blocks) == 0 || core.FuncPkgPath(f) != core.FuncPkgPath(countWaits) {
+						continue
+					}
+					known := false
+					for _, g := range counters {
+						known = known || g == f
+					}
+					if !known {
+						counters = append(counters, f)
+					}
+				}
+			}
+		}
+	}
+	eachCounterInstr := func(visit func(in ssa.Instruction)) {
+		for _, f := range counters {
+			core.EachInstr(f, false, func(_ *ssa.Function, in ssa.Instruction) { visit(in) })
+		}
+	}
+	eachCounterInstr(func(in ssa.Instruction) {
 		iff, ok := in.(*ssa.If)
 		if !ok {
 			return
@@ -501,17 +640,13 @@ func c05R4(p *core.Program, r *core.Report) {
 		r.Check(cs.Caller == save, "R4", core.FuncName(cs.Caller)+"/Results.Save", p.Pos(cs.Pos()), "via run.SaveResult", "a result is stored without passing run.SaveResult's truncation")
 		if cs.Caller == save {
 			okTr := false
-			core.EachInstr(save, false, func(_ *ssa.Function, in ssa.Instruction) {
-				st, ok := in.(*ssa.Store)
-				if !ok {
-					return
+			a := cs.Common().Args
+			// the assignment may sit in a helper that SaveResult hands the result to; it must be unconditional there
+			for _, ts := range truncStores(save, "Value", func(lim ssa.Value) bool { return derivesFromOptionsField(lim, "MaxResultChars") }, 2) {
+				if len(ts.Inner) == 0 && canon(ts.Base) == canon(a[len(a)-1]) && core.InstrDominates(ts.Outer, cs.Instr) {
+					okTr = true
 				}
-				if fv := core.FieldAddrVar(st.Addr); fv != nil && fv.Name() == "Value" {
-					if truncCallWithLimit(st.Val, "Truncate", "MaxResultChars", 0) != nil && core.InstrDominates(st, cs.Instr) {
-						okTr = true
-					}
-				}
-			})
+			}
 			r.Check(okTr, "R4", "run.SaveResult/truncates-value", p.Pos(cs.Pos()), "result.Value = Truncate(_, Options().MaxResultChars) dominates Results.Save", "run results are saved without truncating their value to MaxResultChars")
 		}
 	}
@@ -558,35 +693,7 @@ func c05R4(p *core.Program, r *core.Report) {
 		}
 		a := cs.Common().Args
 		val := a[len(a)-1]
-		okTr := false
-		extraCond := ""
-		core.EachInstr(cs.Caller, false, func(_ *ssa.Function, in ssa.Instruction) {
-			st, ok := in.(*ssa.Store)
-			if !ok {
-				return
-			}
-			fa, ok := st.Addr.(*ssa.FieldAddr)
-			if !ok || core.FieldAddrVar(fa).Name() != "Text" || canon(fa.X) != canon(val) {
-				return
-			}
-			if truncCallWithLimit(st.Val, "Truncate", "MaxFieldChars", 0) != nil && !instrReaches(cs.Instr, st) {
-				okTr = true
-				// the truncation may depend on nothing but the value being there
-				for _, ce := range core.MayConds(st.Block()) {
-					bo, isBo := ce.Cond.(*ssa.BinOp)
-					if isBo && (bo.Op == token.NEQ || bo.Op == token.EQL) && (core.IsNilConst(bo.X) || core.IsNilConst(bo.Y)) {
-						other := bo.X
-						if core.IsNilConst(bo.X) {
-							other = bo.Y
-						}
-						if canon(other) == canon(val) {
-							continue
-						}
-					}
-					extraCond = canonShort(ce.Cond) + " at " + p.Pos(ce.If.Pos())
-				}
-			}
-		})
+		okTr, extraCond := fieldTextTruncated(p, val, cs.Instr, 2)
 		r.Check(okTr, "R4", core.FuncName(cs.Caller)+"/FieldValues.Set-truncated", p.Pos(cs.Pos()), "value.Text = Truncate(_, Options().MaxFieldChars) before the store", "a field value is stored without truncating its text to MaxFieldChars")
 		r.Check(extraCond == "", "R4", core.FuncName(cs.Caller)+"/FieldValues.Set-truncated-always", p.Pos(cs.Pos()), "the truncation depends only on the value being non-nil",
 			"the truncation of the field value's text also depends on "+extraCond+": every field value carries its text whatever the field's type, so the other values are stored at full length")
@@ -645,7 +752,22 @@ func c05R4(p *core.Program, r *core.Report) {
 		if sv, ok := core.ConstString(ret.Results[0]); ok && sv == "" {
 			continue
 		}
-		if truncCallWithLimit(ret.Results[0], "TruncateEllipsis", "MaxTemplateChars", 0) == nil {
+		// a return on the edge where the truncate flag is known to be false owes no truncation (early-return form)
+		askedNot := false
+		for _, ce := range core.ControllingConds(ret.Block()) {
+			cond, taken := ce.Cond, ce.Taken
+			for {
+				un, isNot := cond.(*ssa.UnOp)
+				if !isNot || un.Op != token.NOT {
+					break
+				}
+				cond, taken = un.X, !taken
+			}
+			if cond == ssa.Value(truncP) && !taken {
+				askedNot = true
+			}
+		}
+		if !askedNot && truncCallWithLimit(ret.Results[0], "TruncateEllipsis", "MaxTemplateChars", 0) == nil {
 			retOK = false
 		}
 	}
@@ -808,6 +930,56 @@ func c05R4(p *core.Program, r *core.Report) {
 		}
 		r.Check(okW, "R4", "run.EvaluateTemplate/passes-truncate-true", p.Pos(et.Pos()), "EvaluateTemplateText(_, nil, true, _)", "the convenience evaluator does not ask for truncation")
 	}
+}
+
+// fieldTextTruncated: the Text of field value val was re-assigned from Truncate(_, Options().MaxFieldChars) before
+// use — in use's function, in a helper of the same package it hands val to, or (when val is what such a helper
+// returns) in that helper for every value it returns. extra names a condition, other than val being non-nil, that the
+// truncation depends on.
+func fieldTextTruncated(p *core.Program, val ssa.Value, use ssa.Instruction, depth int) (ok bool, extra string) {
+	limOK := func(lim ssa.Value) bool { return derivesFromOptionsField(lim, "MaxFieldChars") }
+	for _, ts := range truncStores(use.Parent(), "Text", limOK, 2) {
+		if canon(ts.Base) != canon(val) || instrReaches(use, ts.Outer) {
+			continue
+		}
+		ok = true
+		// the truncation may depend on nothing but the value being there
+		conds := append([]core.CondEdge{}, ts.Inner...)
+		for _, ce := range core.MayConds(ts.Outer.Block()) {
+			if !isNilTestOf(ce.Cond, val) {
+				conds = append(conds, ce)
+			}
+		}
+		for _, ce := range conds {
+			extra = canonShort(ce.Cond) + " at " + p.Pos(ce.If.Pos())
+		}
+	}
+	if ok || depth <= 0 {
+		return ok, extra
+	}
+	c, isCall := core.StripConv(val).(*ssa.Call)
+	if !isCall {
+		return false, ""
+	}
+	g := c.Call.StaticCallee()
+	if g == nil || g == use.Parent() || len(g.Blocks) == 0 || core.FuncPkgPath(g) != core.FuncPkgPath(use.Parent()) || g.Signature.Results().Len() != 1 {
+		return false, ""
+	}
+	n := 0
+	for _, ret := range core.Returns(g) {
+		if core.IsNilConst(ret.Results[0]) {
+			continue // no value, no text
+		}
+		n++
+		ok2, ex := fieldTextTruncated(p, ret.Results[0], ret, depth-1)
+		if !ok2 {
+			return false, ""
+		}
+		if ex != "" {
+			extra = ex
+		}
+	}
+	return n > 0, extra
 }
 
 func constantInt(c *types.Const) (int64, bool) {
